@@ -362,3 +362,122 @@ impl HttpHandler for EcoHttp {
         Ok(self.st.body())
     }
 }
+
+// ---------------- HTTP/1.1 server node (the real HTTP client runs against it) ----------------
+
+/// How the response body is framed on the stream.
+#[derive(Clone, Debug, PartialEq)]
+pub enum HttpFraming {
+    /// `Content-Length: n`, connection kept open
+    ContentLength,
+    /// `Transfer-Encoding: chunked` with the given chunk sizes (the rest in one last chunk)
+    Chunked(Vec<usize>),
+    /// neither: the body ends when the server closes the stream
+    UntilClose,
+}
+
+/// A minimal HTTP/1.1 origin server: answers every complete request head with one fixed response.
+pub struct HttpTcpServer {
+    pub status_line: String,
+    pub headers: Vec<(String, String)>,
+    pub body: Vec<u8>,
+    pub framing: HttpFraming,
+    /// gzip the body and say so (the client advertises `Accept-Encoding: gzip`)
+    pub gzip: bool,
+    /// `Connection: close` and FIN after the response
+    pub close_after: bool,
+    /// request heads received (raw bytes up to and including the blank line)
+    pub requests: Vec<Vec<u8>>,
+    pub served: u32,
+    bufs: std::collections::BTreeMap<usize, Vec<u8>>,
+}
+
+impl HttpTcpServer {
+    pub fn new(body: Vec<u8>, framing: HttpFraming) -> Self {
+        Self {
+            status_line: "HTTP/1.1 200 OK".into(),
+            headers: vec![("Content-Type".into(), "application/json; charset=utf-8".into()), ("Server".into(), "Kestrel".into())],
+            body,
+            framing,
+            gzip: false,
+            close_after: false,
+            requests: Vec::new(),
+            served: 0,
+            bufs: Default::default(),
+        }
+    }
+
+    pub fn response_bytes(&self) -> Vec<u8> {
+        let body = if self.gzip {
+            use std::io::Write;
+            let mut e = flate2::write::GzEncoder::new(Vec::new(), flate2::Compression::fast());
+            e.write_all(&self.body).unwrap();
+            e.finish().unwrap()
+        } else {
+            self.body.clone()
+        };
+        let mut o = Vec::new();
+        o.extend_from_slice(self.status_line.as_bytes());
+        o.extend_from_slice(b"\r\n");
+        for (k, v) in &self.headers {
+            o.extend_from_slice(format!("{k}: {v}\r\n").as_bytes());
+        }
+        if self.gzip {
+            o.extend_from_slice(b"Content-Encoding: gzip\r\n");
+        }
+        if self.close_after || self.framing == HttpFraming::UntilClose {
+            o.extend_from_slice(b"Connection: close\r\n");
+        }
+        match &self.framing {
+            HttpFraming::ContentLength => {
+                o.extend_from_slice(format!("Content-Length: {}\r\n\r\n", body.len()).as_bytes());
+                o.extend_from_slice(&body);
+            }
+            HttpFraming::Chunked(sizes) => {
+                o.extend_from_slice(b"Transfer-Encoding: chunked\r\n\r\n");
+                let mut pos = 0;
+                for s in sizes {
+                    let s = (*s).min(body.len() - pos);
+                    if s == 0 {
+                        continue;
+                    }
+                    o.extend_from_slice(format!("{s:x}\r\n").as_bytes());
+                    o.extend_from_slice(&body[pos .. pos + s]);
+                    o.extend_from_slice(b"\r\n");
+                    pos += s;
+                }
+                if pos < body.len() {
+                    o.extend_from_slice(format!("{:X}\r\n", body.len() - pos).as_bytes());
+                    o.extend_from_slice(&body[pos ..]);
+                    o.extend_from_slice(b"\r\n");
+                }
+                o.extend_from_slice(b"0\r\n\r\n");
+            }
+            HttpFraming::UntilClose => {
+                o.extend_from_slice(b"\r\n");
+                o.extend_from_slice(&body);
+            }
+        }
+        o
+    }
+}
+
+impl Server for HttpTcpServer {
+    fn on_tcp_data(&mut self, cx: &mut Cx, conn: usize, data: &[u8]) {
+        let mut buf = self.bufs.remove(&conn).unwrap_or_default();
+        buf.extend_from_slice(data);
+        if let Some(end) = buf.windows(4).position(|w| w == b"\r\n\r\n") {
+            let head: Vec<u8> = buf.drain(.. end + 4).collect();
+            self.requests.push(head);
+            self.served += 1;
+            let resp = self.response_bytes();
+            cx.tcp_send(conn, resp);
+            if self.close_after || self.framing == HttpFraming::UntilClose {
+                cx.tcp_fin(conn);
+            }
+        }
+        self.bufs.insert(conn, buf);
+    }
+
+    fn as_any(&mut self) -> &mut dyn std::any::Any { self }
+}
